@@ -8,9 +8,9 @@ from .routing import TYPES, cargo_shard, rename_crate
 PAYLOAD = {"raw": [("payload", "Binary")], "bin": [("payload", "Binary")], "t1": [("p1", "u32")], "t2": [("p1", "u32"), ("p2", "String")],
            "t3": [("p1", "u32"), ("p2", "String"), ("p3", "Nested")],
            "tn": [("gas_limit", "u32"), ("msg", "String"), ("id", "Nested")]}
-DATA_TY = {"plain": "Nested", "opt": "Option<Nested>", "raw": "Binary", "rawopt": "Option<Binary>",
+DATA_TY = {"plainO": "Option<Nested>", "plain": "Nested", "opt": "Option<Nested>", "raw": "Binary", "rawopt": "Option<Binary>",
            "inst": "MsgInstantiateContractResponse", "instopt": "Option<MsgInstantiateContractResponse>"}
-DATA_ATTR = {"plain": "#[sv::data]", "opt": "#[sv::data(opt)]", "raw": "#[sv::data(raw)]", "rawopt": "#[sv::data(raw, opt)]",
+DATA_ATTR = {"plainO": "#[sv::data]", "plain": "#[sv::data]", "opt": "#[sv::data(opt)]", "raw": "#[sv::data(raw)]", "rawopt": "#[sv::data(raw, opt)]",
              "inst": "#[sv::data(instantiate)]", "instopt": "#[sv::data(instantiate, opt)]"}
 
 
